@@ -1,11 +1,14 @@
 //! Harness binary `h_ident <PROP> --seed S --tier T [--count N] [--replay F]`.
 //! One module per property (`cNN.rs`, `pub fn run(args: &hcore::Args, out: &mut hcore::Out)`).
 
+mod c46;
+
 fn main() {
     let args = hcore::Args::parse();
     hcore::quiet_panics();
     let mut out = hcore::Out::new();
     match args.prop.as_str() {
+        "C46" => c46::run(&args, &mut out),
         p => {
             let _ = &mut out;
             eprintln!("h_ident: unknown property {p}");
